@@ -185,7 +185,9 @@ impl Datastore for ClnDatastore {
                 ),
                 string: Some(info),
                 hex: None,
-                mode: Some(DatastoreMode::MUST_REPLACE),
+                // The attempt record may be missing: add_payment_attempt writes
+                // it after the state record, and that write can be lost.
+                mode: Some(DatastoreMode::CREATE_OR_REPLACE),
                 generation: None,
             })
             .await?;
